@@ -101,6 +101,12 @@ func addEdge(g map[string]map[string]bool, a, b string) {
 	g[a][b] = true
 }
 
+// c07svcStyle: how the three services are created (0: constructor; 1: value + fields / withers; 2: type only + calls)
+var c07svcStyle = 0
+
+// c07pctStyle: parameter patterns in which "%%" and function chunks touch the references
+var c07pctStyle = false
+
 func c07build(atoms []c07atom, paramStyle int) c07model {
 	m := c07model{cfg: &Cfg{}, fine: map[string]map[string]bool{}, coarse: map[string]map[string]bool{}}
 	svcArgs := make([][]any, 3)
@@ -165,6 +171,24 @@ func c07build(atoms []c07atom, paramStyle int) c07model {
 				s.Fields = append(s.Fields, KV{fmt.Sprintf("F%d", k), a})
 			}
 		}
+		switch c07svcStyle {
+		case 1:
+			// created from a value: no constructor arguments; the references alternate between fields and calls
+			s = Service{Name: c07svc[i], Value: P("Thing{}"), Tags: svcTags[i]}
+			for k, a := range svcArgs[i] {
+				if k%2 == 0 {
+					s.Fields = append(s.Fields, KV{fmt.Sprintf("F%d", k), a})
+				} else {
+					s.Calls = append(s.Calls, Call{Method: "With", Args: []any{a}, Immutable: P(true)})
+				}
+			}
+		case 2:
+			// type only + calls, every reference repeated in a second call
+			s = Service{Name: c07svc[i], Type: P("Thing"), Tags: svcTags[i]}
+			for _, a := range svcArgs[i] {
+				s.Calls = append(s.Calls, Call{Method: "Set", Args: []any{1, a}}, Call{Method: "Set", Args: []any{a}})
+			}
+		}
 		m.cfg.Services = append(m.cfg.Services, s)
 	}
 	for i := 0; i < 3; i++ {
@@ -186,6 +210,16 @@ func c07build(atoms []c07atom, paramStyle int) c07model {
 			for _, d := range parDeps[i] {
 				sb.WriteString("%" + c07par[d] + "%-")
 			}
+			v = sb.String()
+		}
+		if c07pctStyle && len(parDeps[i]) >= 1 {
+			// escaped percent signs and function chunks right next to the references: "%%" + a parameter name that is NOT
+			// referenced + the real references back to back, closed by a function chunk
+			var sb strings.Builder
+			for _, d := range parDeps[i] {
+				sb.WriteString("%%" + c07par[(d+1)%3] + "%" + c07par[d] + "%")
+			}
+			sb.WriteString(`%env("C07", "e")%` + c07par[(i+1)%3] + `%env("C07", "f")%%%`)
 			v = sb.String()
 		}
 		m.cfg.Params = append(m.cfg.Params, Param{c07par[i], v})
@@ -408,7 +442,7 @@ func init() {
 	Register(&Check{
 		ID:    "C07",
 		Level: "exploration",
-		Rule: "all sets of <= k of the 44 edge atoms over {3 services, 2 tags, 2 decorators, 3 parameters}: s->@s' (9), s requests !tagged t (6), s carries t (6), decorator on tag (4), decorator->@s (6), decorator requests !tagged t (4), p->%p'% (9); k=3 quick, k=5 thorough; plus all 512 parameter graphs in four realisations (single chunk, multi-chunk, every reference twice, every reference three times), both declaration orders of the decorators and all 512 service @-graphs; " +
+		Rule: "all sets of <= k of the 44 edge atoms over {3 services, 2 tags, 2 decorators, 3 parameters}: s->@s' (9), s requests !tagged t (6), s carries t (6), decorator on tag (4), decorator->@s (6), decorator requests !tagged t (4), p->%p'% (9); k=3 quick, k=5 thorough; plus all 512 parameter graphs in five realisations (single chunk, multi-chunk, every reference twice, every reference three times, references squeezed between %% and function chunks next to names that are not references), both declaration orders of the decorators and all 512 service @-graphs (services created by a constructor, from a value with fields and withers, from a type only with calls); " +
 			"non-trivial = the reference relation has a cycle; distinct = distinct atom set",
 		Assumptions: []string{
 			"oracle: own reachability on the relation of the statement; every reported line is checked edge by edge against an independently built fine-grained graph (tag / decorator pseudo-nodes as the tool prints them)",
@@ -451,6 +485,51 @@ func init() {
 						}
 					})
 				})
+			}
+			// all 512 parameter graphs once more, the references squeezed between escaped percent signs and function chunks
+			for mask := 0; mask < 512; mask++ {
+				var sel []c07atom
+				for b := 0; b < 9; b++ {
+					if mask&(1<<uint(b)) != 0 {
+						sel = append(sel, c07atom{"pp", b / 3, b % 3})
+					}
+				}
+				w.Case(fmt.Sprintf("params/percent-neighbours/%03x", mask), func(c *C) {
+					c07pctStyle = true
+					defer func() { c07pctStyle = false }()
+					c07eval(w, c, sel, 1)
+				})
+			}
+			// the same relation over services created from a value or a type only: all 512 service graphs and every atom
+			// set of size <= 2
+			for _, style := range []int{1, 2} {
+				style := style
+				for mask := 0; mask < 512; mask++ {
+					var sel []c07atom
+					for b := 0; b < 9; b++ {
+						if mask&(1<<uint(b)) != 0 {
+							sel = append(sel, c07atom{"ss", b / 3, b % 3})
+						}
+					}
+					w.Case(fmt.Sprintf("services-style%d/%03x", style, mask), func(c *C) {
+						c07svcStyle = style
+						defer func() { c07svcStyle = 0 }()
+						c07eval(w, c, sel, 0)
+					})
+				}
+				for size := 1; size <= 2; size++ {
+					combos(n, size, func(idx []int) {
+						sel := make([]c07atom, len(idx))
+						for i, x := range idx {
+							sel[i] = c07atoms[x]
+						}
+						w.Case(fmt.Sprintf("style%d/k%d/%v", style, size, idx), func(c *C) {
+							c07svcStyle = style
+							defer func() { c07svcStyle = 0 }()
+							c07eval(w, c, sel, 0)
+						})
+					})
+				}
 			}
 			// defects of other classes next to the graph: every atom set of size <= 2 x {scope, missing parameter,
 			// missing service, all three}; all parameter graphs with all three
